@@ -67,6 +67,17 @@ def layouts_for(shape, role, tier):
                 continue
             otext = "" if off == 0 else f", offset: {off}"
             out.append(dict(kind="strided", text=f"strided<[{', '.join(map(str, st))}]{otext}>", dims=[[(n, s)] for n, s in zip(shape, st)], offset=7 if off == "?" else off, strides=list(st), dyn_offset=off == "?"))
+    # run-time strides: the type says '?', the value comes from the memref descriptor
+    dyn = []
+    if rank == 2:
+        dyn = [((shape[1] + 2, 1), (True, False)), ((1, shape[0] + 1), (False, True)), ((2 * shape[1], 2), (True, True))]
+    elif rank == 1:
+        dyn = [((3,), (True,))]
+    elif rank == 3:
+        dyn = [((shape[1] * shape[2] + 3, shape[2], 1), (True, False, False))]
+    for st, mask in dyn:
+        stt = ", ".join("?" if m else str(x) for x, m in zip(st, mask))
+        out.append(dict(kind="strided", text=f"strided<[{stt}], offset: ?>", dims=[[(n, x)] for n, x in zip(shape, st)], offset=7, strides=list(st), dyn_offset=True, dyn_stride=True))
     return out
 
 
@@ -161,7 +172,9 @@ def space(tier):
                 cases.append(("tsl", sh, w, i, -1, 0))
             tsl_singles = sorted({repr(p[0]): p[0] for p in pairs}.items())
             for i in range(len(tsl_singles)):
-                for c in range(0, len(menu), 2):
+                for c in range(len(menu)):
+                    if c % 2 and not menu[c].get("dyn_stride"):
+                        continue
                     cases.append(("tsl-plain", sh, w, i, c, 0))
                     cases.append(("plain-tsl", sh, w, i, c, 0))
         # dynamic TSL: outermost tile of dim 0 dynamic (bound and step '?') on both sides, for the pairs whose dim-0 outer stride is
